@@ -61,15 +61,16 @@ _PUNCT = [
 ]
 
 
-def third_word_slash(s):
-    """the ad-hoc `Integer/Float ...` type syntax of parse_adhoc_doc_for_typ: a slash inside the THIRD word of a
-    description is a type-hint trigger (found by the thorough tier: 'training input/input' -> Union[input]); such
-    descriptions belong to C08's wild domain, not to the exact-round-trip domain"""
+def second_word_slash(s):
+    """the ad-hoc `An Integer/Float ...` type syntax of parse_adhoc_doc_for_typ: a slash inside the SECOND word of a
+    description is a type-hint trigger (found by the thorough tier: 'training input/input' -> Union[input]; measured
+    over word positions 1..5: only the second). Such descriptions belong to C08's wild domain, not to the
+    exact-round-trip domain"""
     w = (s or "").split()
-    return len(w) > 2 and "/" in w[2]
+    return len(w) > 1 and "/" in w[1]
 
 
-rich_descr = st.builds(lambda f, a, b, dot: f(a, b) + ("." if dot else ""), st.sampled_from(_PUNCT), sentence(1, 3), sentence(1, 3), st.booleans()).filter(lambda s: not third_word_slash(s))
+rich_descr = st.builds(lambda f, a, b, dot: f(a, b) + ("." if dot else ""), st.sampled_from(_PUNCT), sentence(1, 3), sentence(1, 3), st.booleans()).filter(lambda s: not second_word_slash(s))
 mixed_descr = st.one_of(descr, descr, rich_descr)
 HYPHENATED = ["hyper-parameter", "pre-trained", "look-up", "re-use", "well-known", "on-the-fly", "x-axis", "non-zero"]
 
